@@ -23,13 +23,61 @@ def harness(sym):
     check_trace(sym, sc, TEMPLATES[t], {"C05", "C04"} if False else {"C05"})
 
 
+def harness_generated(sym):
+    """Methods assembled by solver selectors (props/gen_methods.py): block events and Block tag of every tick (tolerant
+    per-flow oracle) + the exact sequence of block start / end events of the main flow."""
+    from props.gen_methods import generate, check_reference, Infeasible
+    sh = sym.shard
+    try:
+        pc = generate(sym, sh["slots"], sh["body"], sh.get("watch", False), False, sh.get("first"), sh.get("blocks", 3), tuple(sh.get("pre", ())))
+    except Infeasible:
+        sym.assume(False)
+    n = 2 * pc.count("\n") + 3 * pc.count("Wait:") + 8
+    sc = run_scenario(sym, "generated", n, pcode=pc, collect_runlog=False)
+    sym.check(not sc.tick_errors, "C05|generated|tick-raised", lambda: f"{pc!r}: Engine.tick raised {sc.tick_errors[:1]}")
+    check_trace(sym, sc, pc, {"C05"})
+    rows = pc.split("\n")
+    watch_ends_block = any(ln.strip() == "End block" and i > 0 and rows[i - 1].strip().startswith("Mark: W") for i, ln in enumerate(rows))
+    if not watch_ends_block:
+        check_reference(sym, sc, pc, "C05")
+    # at the end of a finished run no block is active
+    if sc.marks_by_tick and "END" in sc.marks_by_tick[-1] and "Watch" not in pc:
+        sym.check(not sc.block_tag[-1], "C05|generated|block-tag-after-end", lambda: f"{pc!r}: Block tag {sc.block_tag[-1]!r} after the method finished")
+
+
+def _gen_shards(tier):
+    cfgs = []
+    if tier == "quick":
+        cfgs += [{"slots": 2, "body": 2, "blocks": 2, "first": "block"}]
+        cfgs += [{"slots": 2, "body": 2, "blocks": 2, "first": "block", "watch": True, "in1": [3, 99]}]
+    else:
+        cfgs += [{"slots": 3, "body": 2, "blocks": 2, "first": f} for f in ("mark", "block", "wait")]
+        cfgs += [{"slots": 2, "body": 2, "blocks": 3, "first": "block"}]
+        for a in (0, 3, 6, 10):
+            cfgs += [{"slots": 3, "body": 2, "blocks": 2, "first": f, "watch": True, "in1": [a, 99]} for f in ("block", "watch")]
+    return [dict(c, pre=[p0, p1]) for c in cfgs for p0 in range(7) for p1 in range(7)]
+
+
 def _shards(tier):
     if tier == "quick":
         return [{"template": t, "n": min(TICKS[t], 16) if t != "two_watch_blocks" else 24} for t in BLOCK_TEMPLATES]
     return [{"template": t, "n": TICKS[t] + 4} for t in BLOCK_TEMPLATES]
 
 
-OBLIGATIONS = [Obligation(
+_GENERATED = Obligation(
+    name="generated_methods", kind="crosshair", harness=harness_generated, shards=_gen_shards,
+    cpu_budget={"quick": 400.0, "thorough": 3000.0},
+    encoded=["openpectus.lang.exec.pinterpreter:PInterpreter.visit_BlockNode", "openpectus.lang.exec.pinterpreter:PInterpreter.visit_EndBlockNode",
+             "openpectus.lang.exec.pinterpreter:PInterpreter.visit_EndBlocksNode", "openpectus.lang.exec.pinterpreter:PInterpreter._abort_block_interrupts",
+             "openpectus.lang.exec.pinterpreter:PInterpreter._is_in_ended_block"],
+    symbolic="the kind of every item of the method (selectors over Mark / Wait / Block / End block / End blocks / Watch and the shape of the Watch body)",
+    bounds={"quick": "first item a Block, 2 top-level items, bodies of 2 items + 'End block', nesting depth 2, at most 2 blocks; with and without one Watch (condition true from tick 3)",
+            "thorough": "3 top-level items, bodies of 2 items (and 2 top-level items with up to 3 blocks), one Watch with the condition true from tick 0 / 3 / 6 / 10"},
+    assumptions=["reference for the main flow (props/gen_methods.reference): a Block is left through End block (innermost) / End blocks (all); the start/end events of the main flow's blocks must be exactly the reference sequence",
+                 "a Watch body is a separate flow judged by the tolerant per-flow oracle; when a Watch body itself contains 'End block' only that oracle is applied",
+                 "tick interval fixed; fake hardware; log statements removed at import"])
+
+OBLIGATIONS = [_GENERATED, Obligation(
     name="block_chain", kind="crosshair", harness=harness, shards=_shards,
     cpu_budget={"quick": 300.0, "thorough": 2400.0},
     encoded=["openpectus.lang.exec.pinterpreter:PInterpreter.visit_BlockNode", "openpectus.lang.exec.pinterpreter:PInterpreter.visit_EndBlockNode",
